@@ -69,9 +69,17 @@ Fixpoint print_canon (j : jval) {struct j} : list N :=
 Definition canon_raw (b : list N) : list N :=
   match parse_exact b with Some j => print_canon j | None => b end.
 
+(** An encoding FAILURE must show up as a JSON string; its wording is the implementation's business (the theorem's
+    [expected] pins the wording of the code as it is; here a different wording is drift).  The expected leaf is
+    replaced by a mark that no real number text canonicalises to ([canon_num] writes zero as 0E0 only):
+    0E7 = "any non-empty string", 0E8 = "any string" (when the error text itself is empty). *)
+Definition wild_nonempty : list N := [48; 69; 55].
+Definition wild_any : list N := [48; 69; 56].
+
 Fixpoint canon_value (v : value) : value :=
   match v with
   | VRaw (ROk b) => VRaw (ROk (canon_raw b))
+  | VRaw (RErr m) => VRaw (ROk (if is_empty m then wild_any else wild_nonempty))
   | VGroup l => VGroup ((fix go (l : list (list N * value)) : list (list N * value) :=
                            match l with [] => [] | (k, v') :: t => (k, canon_value v') :: go t end) l)
   | _ => v
@@ -86,6 +94,7 @@ Definition canon_record (r : record) : record :=
 Fixpoint jval_eqb (a b : jval) {struct a} : bool :=
   match a, b with
   | JStr x, JStr y => bytes_eqb x y
+  | JNum x, JStr y => (bytes_eqb x wild_nonempty && negb (is_empty y)) || bytes_eqb x wild_any
   | JNum x, JNum y => if existsb (fun c => c =? 69) x then bytes_eqb x (canon_num y) else bytes_eqb x y
   | JTrue, JTrue | JFalse, JFalse | JNull, JNull => true
   | JArr l, JArr m =>
